@@ -182,7 +182,6 @@ class SetEncoder(encoder.SequenceEncoder):
         substrate = null
 
         comps = []
-        compsMap = {}
 
         if asn1Spec is None:
             # instance of ASN.1 schema
@@ -206,12 +205,10 @@ class SetEncoder(encoder.SequenceEncoder):
                     if namedType.isDefaulted and component == namedType.asn1Object:
                             continue
 
-                    compsMap[id(component)] = namedType
-
                 else:
-                    compsMap[id(component)] = None
+                    namedType = None
 
-                comps.append((component, asn1Spec))
+                comps.append((component, asn1Spec, namedType))
 
         else:
             # bare Python value + ASN.1 schema
@@ -230,11 +227,12 @@ class SetEncoder(encoder.SequenceEncoder):
                         component, namedType, encodeFun, options):
                     continue
 
-                compsMap[id(component)] = namedType
-                comps.append((component, namedType.asn1Object))
+                comps.append((component, namedType.asn1Object, namedType))
 
-        for comp, compType in sorted(comps, key=self._componentSortKey):
-            namedType = compsMap[id(comp)]
+        # each entry carries its own named type: the same Python object may
+        # have been given for more than one component
+        for comp, compType, namedType in sorted(
+                comps, key=lambda entry: self._componentSortKey(entry[:2])):
 
             if namedType:
                 options.update(ifNotEmpty=namedType.isOptional)
